@@ -247,7 +247,19 @@ def shared_rules(fb, ctx, pid, only=None):
             if brk:
                 c = strip(e["cond"])
                 post = lambda z: bool(mcalls(z, r"FactSet::len$")) or hirq.is_lid(strip(z), post_ids)      # the size after the merge
-                good = c.get("k") == "binary" and c.get("op") == "Eq" and ((post(c["a"]) and hirq.is_lid(strip(c["b"]), pre_ids)) or (post(c["b"]) and hirq.is_lid(strip(c["a"]), pre_ids)))
+                # the test may be computed into a variable first and negated (`let grew = facts.len() != len; if !grew`): follow
+                # immutable `let`s and `!` down to the comparison; "good" = the branch is taken exactly when the sizes are equal
+                bool_lets = {l_["pat"]["id"]: l_["init"] for l_ in find_all(loops[0], lambda z: z.get("k") == "let" and isinstance(z.get("pat"), dict) and z["pat"].get("k") == "bind" and "Mut" not in str(z["pat"].get("mode", "")) and z.get("init") is not None)}
+                equal, hops = True, 0
+                while hops < 8:
+                    hops += 1
+                    if c.get("k") == "unary" and c.get("op") == "Not":
+                        equal, c = not equal, strip(c["a"])
+                    elif c.get("k") == "path" and c.get("res", {}).get("dk") == "Local" and c["res"].get("id") in bool_lets and c["res"]["id"] not in pre_ids | post_ids:
+                        c = strip(bool_lets[c["res"]["id"]])
+                    else:
+                        break
+                good = c.get("k") == "binary" and c.get("op") == ("Eq" if equal else "Ne") and ((post(c["a"]) and hirq.is_lid(strip(c["b"]), pre_ids)) or (post(c["b"]) and hirq.is_lid(strip(c["a"]), pre_ids)))
                 idx_if = i if good else -1
     all_ok_breaks = [x for x in find_all(loops[0], lambda n: n.get("k") == "break") if (hirq.ctor_name(strip(x.get("e"))) or "").endswith("::Ok")]
     ctx.check(idx_len is not None and idx_merge is not None and idx_if not in (None, -1) and idx_len < idx_merge < idx_if and len(all_ok_breaks) == 1, "FIXPOINT", "loop leaves with Ok only when merge added nothing", "FIXPOINT|exit",
